@@ -11,8 +11,10 @@ import sys
 from common import case, coq_bytes, coq_lit, coq_result, norm as common_norm
 
 ID = "C17"
-MAKE_TARGETS = ["Props/C17.v", "GenProps/P2pGen.v"]
-GEN_TABLES = ["P2pGen"]
+MAKE_TARGETS = ["Props/C17.v", "GenProps/P2pGen.v", "Props/C17Ext.v", "GenProps/P2pExtGen.v"]
+GEN_TABLES = ["P2pGen", "P2pExtGen"]
+# further Props files whose `Print Assumptions` blocks belong to this check (common.build_obligations)
+ASSUMPTION_FILES = ["Props/C17Ext.v"]
 CASE_TIMEOUT = 30.0
 ASSUMPTIONS = [
     "sha256 is an arbitrary function with 32-byte output in the framing theorems (hashlib answers it at run time)",
@@ -35,6 +37,10 @@ ASSUMPTIONS = [
     "str arguments (command, inventory type name) are ASCII; dict results are compared as tuples, hex strings as bytes",
     "modelled, not verified: src/bits/p2p.py (recv_msg, msg_ser, *_payload builders and parse_*_payload parsers, "
     "parse_payload, inventory, network_ip_addr)",
+    "extension (Props/C17Ext.v): getblocks_payload and headers_payload are modelled (Model/P2pCodecExt.v); the module has no "
+    "parser for either message, so getblocks round-trips through the repo's parse_getheaders_payload (same layout) and "
+    "headers through the reference receiver of Spec/P2pHeaders.v (extracted, compared with this module's Python "
+    "reference); headers_payload's count is an independent, unchecked argument (two _refuted theorems, not violations)",
 ]
 FILLER = {"frag-random-small"}
 
@@ -303,6 +309,44 @@ def impl_getheaders_rt(pv, hc, hs, stop):
     return (p, _getheaders_tuple(m.parse_getheaders_payload(p)))
 
 
+def impl_getblocks_payload(hs, pv):
+    m = _p2p()
+    return m.getblocks_payload(hs) if pv is None else m.getblocks_payload(hs, pv)
+
+
+def impl_getblocks_rt(hs, pv):
+    m = _p2p()
+    before = [bytes(h) for h in hs]
+    p = impl_getblocks_payload(hs, pv)
+    assert [bytes(h) for h in hs] == before, "getblocks_payload modified its argument"
+    return (p, _getheaders_tuple(m.parse_getheaders_payload(p)))
+
+
+def ref_parse_headers(p):
+    """reference receiver of a `headers` payload (developer reference): CompactSize count <= 2000, then count entries of an
+    80-byte header and a zero transaction count, nothing after them; None = not a headers message"""
+    if not p:
+        return None
+    w = {0xfd: 2, 0xfe: 4, 0xff: 8}.get(p[0], 0)
+    if len(p) < 1 + w:
+        return None
+    n = int.from_bytes(p[1:1 + w], "little") if w else p[0]
+    if n > 2000:
+        return None
+    o, out = 1 + w, []
+    for _ in range(n):
+        if len(p) - o < 81 or p[o + 80] != 0:
+            return None
+        out.append(p[o:o + 80])
+        o += 81
+    return out if o == len(p) else None
+
+
+def impl_headers_rt(count, hs):
+    p = _p2p().headers_payload(count, hs)
+    return (p, ref_parse_headers(p))
+
+
 def impl_inv_rt(count, items):
     m = _p2p()
     invs = [m.inventory(t, h) for (t, h) in items]
@@ -536,6 +580,10 @@ IMPL = {
     "parse_feefilter_payload": lambda b: _p2p().parse_feefilter_payload(b)["feerate"],
     "parse_sendcmpct_payload": lambda b: (lambda d: (d["announce"], d["version"]))(_p2p().parse_sendcmpct_payload(b)),
     "parse_payload": impl_parse_payload,
+    "getblocks_payload": impl_getblocks_payload,
+    "getblocks_rt": impl_getblocks_rt,
+    "headers_payload": lambda count, hs: _p2p().headers_payload(count, hs),
+    "headers_rt": impl_headers_rt,
 }
 
 
@@ -999,6 +1047,43 @@ def gen_cases(rng, tier):
     for _ in range(200 if T else 30):
         out.append(case("parse-getheaders-random-bytes", "parse_getheaders_payload", rng.randbytes(rng.randrange(0, 80))))
 
+    # getblocks (Props/C17Ext.v): hash counts crossing 252/253, the optional version argument, odd hash widths
+    for n in [0, 1, 2, 3, 252, 253, 254, 255, 256, 300, 500, 501] + ([65535, 65536] if T else []):
+        cls = "getblocks-count-%s" % ("0" if n == 0 else ("le252" if n <= 252 else ("253plus" if n < 65536 else "65536plus")))
+        out.append(case(cls, "getblocks_rt", hashes(n), None, timeout=120))
+        out.append(case(cls, "getblocks_rt", hashes(n), rng.choice([70015, 70016, 209, 31800, 60002]), timeout=120))
+    for pv in (0, 1, U32 - 1, U32, -1, 2 ** 64):
+        out.append(case("getblocks-version-%s" % ("in-range" if 0 <= pv < U32 else "overflow"), "getblocks_rt", hashes(2), pv, strict=True))
+        out.append(case("getblocks-version-%s" % ("in-range" if 0 <= pv < U32 else "overflow"), "getblocks_payload", hashes(1), pv, strict=True))
+    out.append(case("getblocks-default-version", "getblocks_payload", hashes(1), None, strict=True))
+    out.append(case("getblocks-default-version", "getblocks_payload", [], None, strict=True))
+    for hs in ([b"\x01" * 31], [b"\x01" * 33], [b"", b"\x02" * 64], [b"\x01" * 31, b"\x02" * 33], [b"\x05" * 16] * 2, [b""] * 3):
+        out.append(case("getblocks-odd-lengths", "getblocks_rt", hs, 70015))
+    hh = rng.randbytes(32)
+    out.append(case("getblocks-repeated-hash", "getblocks_rt", [hh] * 5, None))
+    out.append(case("getblocks-zero-hashes", "getblocks_rt", [bytes(32)] * 3, 70015))
+    # headers: counts crossing 252/253 and the documented maximum 2000; count is an argument of its own
+    def hdrs(n):
+        return [rng.randbytes(80) for _ in range(n)]
+    for n in [0, 1, 2, 3, 252, 253, 254, 255, 256, 1999, 2000, 2001] + ([65535, 65536] if T else []):
+        cls = "headers-count-%s" % ("0" if n == 0 else ("le252" if n <= 252 else ("253to2000" if n <= 2000 else "gt2000")))
+        out.append(case(cls, "headers_rt", n, hdrs(n), timeout=120))
+    for c, n in ((0, 1), (1, 0), (2, 1), (1, 2), (253, 2), (252, 253), (2001, 0), (2000, 1), (65536, 1), (U32, 0), (U64 - 1, 1)):
+        out.append(case("headers-count-mismatch", "headers_rt", c, hdrs(n), strict=True))
+    for c in (-1, U64, 2 ** 70, -2 ** 63):
+        out.append(case("headers-count-refused", "headers_rt", c, hdrs(1), strict=True))
+        out.append(case("headers-count-refused", "headers_payload", c, [], strict=True))
+    for L in (0, 1, 79, 81, 82, 160):
+        out.append(case("headers-odd-lengths", "headers_rt", 1, [rng.randbytes(L)]))
+        out.append(case("headers-odd-lengths", "headers_rt", 2, [rng.randbytes(80), rng.randbytes(L)]))
+    out.append(case("headers-odd-lengths", "headers_rt", 2, [rng.randbytes(79), rng.randbytes(81)]))       # 162 bytes, misaligned
+    out.append(case("headers-odd-lengths", "headers_rt", 2, [bytes(81), bytes(79)]))                        # zero bytes: reads back shifted
+    hx = rng.randbytes(80)
+    out.append(case("headers-repeated", "headers_rt", 3, [hx, hx, hx]))
+    out.append(case("headers-payload", "headers_payload", 2, hdrs(2), strict=True))
+    for cmd in (b"getblocks", b"headers"):      # no parser of their own in the module
+        out.append(case("parse-payload-no-parser", "parse_payload", cmd, struct.pack("<I", 70015) + b"\x00" + bytes(32), strict=True))
+
     # inv: all inventory types, counts crossing 252/253
     names = list(INV_TYPES)
     for t in names:
@@ -1350,6 +1435,31 @@ def prop_oracle(c):
         if p != struct.pack("<I", pv) + spec_cs(hc) + b"".join(hs) + stop:
             return "getheaders_payload is not the reference layout"
         return None
+    if op in ("getblocks_rt", "getblocks_payload"):
+        hs, pv = a
+        v = 70015 if pv is None else pv
+        if not (_in(v, U32) and all(len(h) == 32 for h in hs)):
+            return None
+        want_p = struct.pack("<I", v) + spec_cs(len(hs)) + b"".join(hs) + bytes(32)
+        if op == "getblocks_payload":
+            return None if impl_getblocks_payload(hs, pv) == want_p else "getblocks_payload is not the reference layout"
+        p, t = impl_getblocks_rt(hs, pv)
+        if p != want_p:
+            return "getblocks_payload is not the reference layout (version, count, hashes, zero stop hash)"
+        if (t[0], t[1], t[2], t[3]) != (v, len(hs), hs if hs else None, bytes(32)):
+            return "parse_getheaders_payload(getblocks_payload(...)) differs: version %r count %r, %d hashes" % (
+                t[0], t[1], len(t[2] or []))
+        return None
+    if op == "headers_rt":
+        count, hs = a
+        if not (count == len(hs) and count <= 2000 and all(len(h) == 80 for h in hs)):
+            return None
+        p, back = impl_headers_rt(count, hs)
+        if p != spec_cs(count) + b"".join(h + b"\x00" for h in hs):
+            return "headers_payload is not the reference layout (count, 80-byte headers each followed by 0x00)"
+        if back != hs:
+            return "a reference receiver does not read back the %d headers headers_payload was given" % count
+        return None
     if op == "inv_rt":
         count, items = a
         if not (count == len(items) and all(t.upper() in INV_TYPES and len(h) == 32 for t, h in items)):
@@ -1431,7 +1541,50 @@ def extra_checks(ctx):
                              "all compositions of payloads <= %d bytes; all cuttings with <= %d cut points of 1..3 "
                              "back-to-back messages; every single-bit flip of a 32-byte message%s; EOF at every offset"
                              % ((10, 3, "") if ctx["tier"] == "thorough" else (6, 2, " (header fully, command/payload every 3rd bit)"))})
-    return []
+    return _ext_checks(ctx)
+
+
+def _ext_checks(ctx):
+    """extension (Props/C17Ext.v): (1) the oracle (reference layout + read-back) on every getblocks/headers case, not only on
+    disagreements; (2) the extracted reference receiver Spec/P2pHeaders.v against this module's Python reference"""
+    import random
+    from common import case_to_json
+    out = []
+    impl, model = ctx["impl"], ctx["model"]
+    r2 = random.Random("C17-ext-%s" % ctx["tier"])
+    n = 0
+    for c in gen_cases(r2, "quick"):
+        if c["op"] not in ("getblocks_rt", "getblocks_payload", "headers_rt"):
+            continue
+        v = impl.oracle(c, timeout=120)
+        n += 1
+        if v is not None:
+            out.append({"kind": "input", "case": case_to_json(c), "observed": "property oracle: " + str(v),
+                        "expected": "reference layout and read-back", "oracle": v, "failing_input_found": True})
+            if len(out) >= 3:
+                break
+    ctx["stats"].setdefault("extra", {})["ext_oracle_evaluations"] = n
+    if model is not None:
+        bad = m = 0
+        pays = []
+        for k in (0, 1, 2, 3, 252, 253, 254, 2000, 2001):
+            body = b"".join(r2.randbytes(80) + b"\x00" for _ in range(k))
+            pays += [spec_cs(k) + body, spec_cs(k) + body + b"\x00", spec_cs(k) + body[:-1], spec_cs(k + 1) + body]
+            if k:
+                pays.append(spec_cs(k) + body[:80] + b"\x01" + body[81:])
+        pays += [b"", b"\xfd", b"\xfd\x01", b"\xfd\x01\x00" + bytes(81), b"\xfe\x01\x00\x00\x00" + bytes(81), b"\xfe\x01\x00\x00",
+                 b"\xff" + struct.pack("<Q", 1) + bytes(81), b"\xff" + b"\xff" * 8, b"\x01" + bytes(80), b"\x01" + bytes(82)]
+        pays += [r2.randbytes(r2.randrange(0, 200)) for _ in range(60)]
+        pays += [bytes([r2.randrange(0, 4)]) + bytes(r2.randrange(0, 330)) for _ in range(60)]
+        for pl in pays:
+            m += 1
+            if model.call("c17_spec_parse_headers", [pl]) != ("ok", ref_parse_headers(pl)):
+                bad += 1
+        ctx["stats"]["extra"]["spec_vs_python_reference"] = m
+        if bad:
+            out.append({"kind": "obligation", "obligation": "harness:spec-vs-reference",
+                        "detail": "%d answers of the extracted reference receiver differ from the Python reference" % bad})
+    return out
 
 
 def coq_equation(c, mr):
@@ -1449,6 +1602,13 @@ def coq_equation(c, mr):
                                                             coq_lit([int(x) for x in a[4]]), coq_result(mr, _lit_nested))
     if op == "ping_rt":
         return "c17_ping_rt %s = %s" % (coq_lit(a[0]), coq_result(mr))
+    if op == "getblocks_payload" and len(a[0]) <= 4:
+        return "c17_getblocks_payload %s %s = %s" % (coq_lit(list(a[0])), "None" if a[1] is None else "(Some %s)" % coq_lit(a[1]),
+                                                      coq_result(mr))
+    if op == "headers_payload" and len(a[1]) <= 4:
+        return "c17_headers_payload %s %s = %s" % (coq_lit(a[0]), coq_lit(list(a[1])), coq_result(mr))
+    if op == "headers_rt" and len(a[1]) <= 3 and mr[0] == "err":
+        return "c17_headers_rt %s %s = Err %s" % (coq_lit(a[0]), coq_lit(list(a[1])), mr[1])
     if op in ("parse_ping_payload",) and len(a[0]) <= 16:
         return "c17_parse_ping_payload %s = %s" % (coq_bytes(a[0]), coq_lit(mr[1]))
     if op in ("parse_feefilter_payload",):
@@ -1471,5 +1631,5 @@ def _lit_nested(v):
 
 # ops whose answer must not depend on the concrete bytes-like type of their arguments (they agree on the pinned tree;
 # tools/bytearray_probe.py); common.py re-runs a sample of their cases with bytearray arguments
-BYTEARRAY_OPS = {'parse_inv_payload', 'parse_getheaders_payload', 'recv_msgs', 'inventory', 'parse_payload', 'parse_feefilter_payload', 'getheaders_rt', 'parse_sendcmpct_payload', 'parse_network_ip_addr', 'parse_ping_payload', 'recv_msg', 'parse_inventory', 'parse_version_payload', 'parse_addr_payload'}
-MEMORYVIEW_OPS = {'parse_feefilter_payload', 'recv_msgs', 'parse_inv_payload', 'parse_addr_payload', 'inventory', 'parse_sendcmpct_payload', 'recv_msg', 'parse_inventory', 'parse_ping_payload', 'getheaders_rt', 'parse_network_ip_addr', 'parse_getheaders_payload'}
+BYTEARRAY_OPS = {'getblocks_rt', 'headers_rt', 'parse_inv_payload', 'parse_getheaders_payload', 'recv_msgs', 'inventory', 'parse_payload', 'parse_feefilter_payload', 'getheaders_rt', 'parse_sendcmpct_payload', 'parse_network_ip_addr', 'parse_ping_payload', 'recv_msg', 'parse_inventory', 'parse_version_payload', 'parse_addr_payload'}
+MEMORYVIEW_OPS = {'getblocks_rt', 'parse_feefilter_payload', 'recv_msgs', 'parse_inv_payload', 'parse_addr_payload', 'inventory', 'parse_sendcmpct_payload', 'recv_msg', 'parse_inventory', 'parse_ping_payload', 'getheaders_rt', 'parse_network_ip_addr', 'parse_getheaders_payload'}
